@@ -29,20 +29,27 @@ Definition csv_no_shift (repaired : bool) : Prop :=
     end.
 
 (* an updated file keeps its delimiter, encoding, header convention and line break: the file is
-   re-written with dialect o (what was detected when it was loaded), the session's --line-break is flb
-   (appended unless strip), and the file is loaded again *)
+   re-written with dialect o (what was detected when it was loaded), the session's --line-break is flb, the
+   line break [tailf o flb] is appended unless strip, and the file is loaded again.  COMMIT appends the
+   file's own line break (tail_of_file: transaction.go since ec68d2d); before that it appended the
+   session's (tail_of_session).  The last hypothesis says that the convention is observable at all: the
+   re-written file contains a line break, or the session's default is the file's. *)
 Definition dialect_after (o : wopts) (flb : linebreak) (enc : N) (sess_enclose : bool) (l : loaded) : file_info :=
   load_file_info (FI (o_delim o) enc flb (o_noheader o) sess_enclose) l.
 Definition same_dialect (o : wopts) (enc : N) (fi : file_info) : Prop :=
   let e := export_options (o_repaired o) fi in
   o_delim e = o_delim o /\ o_noheader e = o_noheader o /\ o_lb e = o_lb o /\ fi_encoding fi = enc.
-Definition dialect_preserved : Prop :=
+Definition tail_of_file (o : wopts) (flb : linebreak) : linebreak := o_lb o.
+Definition tail_of_session (o : wopts) (flb : linebreak) : linebreak := flb.
+Definition dialect_preserved_for (tailf : wopts -> linebreak -> linebreak) : Prop :=
   forall o flb strip hdr rows letter bytes enc sess_enclose l,
     delim_ok (o_delim o) -> well_shaped hdr rows -> spellable o hdr rows = true ->
-    (strip = true \/ flb <> LbCR) ->
-    csv_file o (if strip then None else Some flb) hdr rows = Some bytes ->
+    (strip = true \/ tailf o flb <> LbCR) ->
+    (strip = false \/ (2 <= lines_written o rows)%nat \/ flb = o_lb o) ->
+    csv_file o (ending_line_break strip (tailf o flb)) hdr rows = Some bytes ->
     csv_load (ropts_of o) letter bytes = inr l ->
     same_dialect o enc (dialect_after o flb enc sess_enclose l).
+Definition dialect_preserved : Prop := dialect_preserved_for tail_of_file.
 
 Definition ltsv_roundtrip : Prop :=
   forall lb tail hdr rows bytes,
@@ -217,45 +224,48 @@ Proof.
 Qed.
 
 (* ---- dialect ---- *)
-Lemma dialect_preserved_refuted : ~ dialect_preserved.
+(* the code before ec68d2d: a CRLF file that is left with its header line only, session line break LF *)
+Lemma dialect_session_tail_refuted : ~ dialect_preserved_for tail_of_session.
 Proof.
   intros H.
-  (* a CRLF file that is left with its header line only, session line break LF *)
   pose (o := WO 44 LbCRLF false false false).
   assert (Hl : exists l, csv_load (ropts_of o) (fun _ => false) [97; 44; 98; 10] = inr l /\ l_lb l = Some LbLF).
   { eexists. split; [vm_compute; reflexivity | reflexivity]. }
   destruct Hl as (l & Hl & Hlb).
   assert (Hw : well_shaped [s_a; s_b] []) by (split; [discriminate | constructor]).
   assert (Hs : spellable o [s_a; s_b] [] = true) by (vm_compute; reflexivity).
-  assert (Hcr : false = true \/ LbLF <> LbCR) by (right; discriminate).
-  assert (Hf : csv_file o (if false then None else Some LbLF) [s_a; s_b] [] = Some [97; 44; 98; 10]) by (vm_compute; reflexivity).
-  pose proof (H o LbLF false [s_a; s_b] [] (fun _ : N => false) [97; 44; 98; 10] 0 false l delim_ok_44 Hw Hs Hcr Hf Hl) as (_ & _ & H3 & _).
+  assert (Hcr : false = true \/ tail_of_session o LbLF <> LbCR) by (right; discriminate).
+  assert (Hobs : false = false \/ (2 <= lines_written o [])%nat \/ LbLF = o_lb o) by (left; reflexivity).
+  assert (Hf : csv_file o (ending_line_break false (tail_of_session o LbLF)) [s_a; s_b] [] = Some [97; 44; 98; 10]) by (vm_compute; reflexivity).
+  pose proof (H o LbLF false [s_a; s_b] [] (fun _ : N => false) [97; 44; 98; 10] 0 false l delim_ok_44 Hw Hs Hcr Hobs Hf Hl) as (_ & _ & H3 & _).
   unfold dialect_after, load_file_info, export_options in H3; cbn [o_lb fi_lb] in H3. rewrite Hlb in H3. discriminate H3.
 Qed.
 
-Lemma dialect_preserved_partial_lemma o flb strip hdr rows letter bytes enc sess_enclose l :
-  delim_ok (o_delim o) -> well_shaped hdr rows -> spellable o hdr rows = true ->
-  (strip = true \/ flb <> LbCR) ->
-  ((2 <= lines_written o rows)%nat \/ flb = o_lb o) ->
-  csv_file o (if strip then None else Some flb) hdr rows = Some bytes ->
-  csv_load (ropts_of o) letter bytes = inr l ->
-  same_dialect o enc (dialect_after o flb enc sess_enclose l).
+Lemma dialect_preserved_lemma : dialect_preserved.
 Proof.
-  intros Hd Hw Hs Hcr Hlines Hf Hl.
-  assert (Ht : (if strip then None else Some flb) <> Some LbCR).
-  { destruct strip; [discriminate|]. destruct Hcr as [Hcr|Hcr]; [discriminate | congruence]. }
+  intros o flb strip hdr rows letter bytes enc sess_enclose l Hd Hw Hs Hcr Hobs Hf Hl.
+  unfold tail_of_file in *.
+  assert (Ht : ending_line_break strip (o_lb o) <> Some LbCR).
+  { unfold ending_line_break. destruct strip; [discriminate|]. destruct Hcr as [Hcr|Hcr]; [discriminate | congruence]. }
   rewrite (csv_roundtrip_general o _ hdr rows letter bytes Hd Hw Hs Ht Hf) in Hl.
   injection Hl as <-. unfold same_dialect, dialect_after, load_file_info, export_options;
   cbn [o_delim o_noheader o_lb fi_delim fi_noheader fi_lb fi_encoding l_lb].
   repeat split; try reflexivity.
   unfold detected_written.
-  assert (Hpos : (1 <= lines_written o rows)%nat).
-  { apply csv_file_inv in Hf as (Hne & _). unfold lines_written. unfold csv_wrows in Hne.
-    destruct (o_noheader o); [|lia]. destruct rows; [cbn in Hne; congruence | cbn; lia]. }
-  destruct Hlines as [H2|He].
-  - destruct (lines_written o rows - 1)%nat eqn:E; [lia|]. reflexivity.
-  - destruct (lines_written o rows - 1)%nat eqn:E; [|reflexivity]. cbn [det_file].
-    destruct strip; cbn; congruence.
+  destruct (lines_written o rows - 1)%nat eqn:E; [|reflexivity]. cbn [det_file]. unfold ending_line_break.
+  destruct strip; [|reflexivity].
+  destruct Hobs as [Hobs|[Hobs|Hobs]]; [discriminate | lia | exact Hobs].
+Qed.
+
+(* the observability hypothesis is needed: a file without any line break says nothing about its convention *)
+Lemma dialect_unobservable_example :
+  let o := WO 44 LbCRLF false false false in
+  exists l, csv_file o (ending_line_break true (tail_of_file o LbLF)) [s_a; s_b] [] = Some [97; 44; 98] /\
+            csv_load (ropts_of o) (fun _ => false) [97; 44; 98] = inr l /\
+            ~ same_dialect o 0 (dialect_after o LbLF 0 false l).
+Proof.
+  cbn zeta. eexists. split; [vm_compute; reflexivity|]. split; [vm_compute; reflexivity|].
+  intros (_ & _ & H & _). vm_compute in H. discriminate H.
 Qed.
 
 (* ================================================================================================ *)
